@@ -950,26 +950,4 @@ Definition ex_store : store := [PyDict [(Ak "k1", A "v1")]].
 Definition ex_args : list pyval := [VRef 0%nat; VAtom EMPTY_BYTES].
 Definition ex_muts : list step := [SMut (MSetItem 0%nat (Ak "k2") (A "v2"))].
 
-Example ex_new_unchanged :
-  match run_script ex_Hid ex_Hpy New 5%nat Ctor (bs "Snapshot") ex_store ex_args ex_muts [] with
-  | Ok (o0, [(None, o1)], _, _) =>
-      match o0, o1 with (r0, _, _, _, ok0), (r1, _, _, _, ok1) =>
-        (r0, ok0, r1, ok1) =
-        (RObj (bs "Snapshot") [RMap false [(Ak "k1", RAtom (Ak "v1"))]; RAtom [1%N; 1%N]], true,
-         RObj (bs "Snapshot") [RMap false [(Ak "k1", RAtom (Ak "v1"))]; RAtom [1%N; 1%N]], true)
-      end
-  | _ => False
-  end.
-Proof. vm_compute. reflexivity. Qed.
 
-Example ex_old_changed :
-  match run_script ex_Hid ex_Hpy Old 5%nat Ctor (bs "Snapshot") ex_store ex_args ex_muts [] with
-  | Ok (o0, [(None, o1)], _, _) =>
-      match o0, o1 with (r0, _, _, _, ok0), (r1, _, _, _, ok1) =>
-        (r0, ok0, r1, ok1) =
-        (RObj (bs "Snapshot") [RMap false [(Ak "k1", RAtom (Ak "v1"))]; RAtom [1%N; 1%N]], true,
-         RObj (bs "Snapshot") [RMap false [(Ak "k1", RAtom (Ak "v1")); (Ak "k2", RAtom (Ak "v2"))]; RAtom [1%N; 1%N]], false)
-      end
-  | _ => False
-  end.
-Proof. vm_compute. reflexivity. Qed.
